@@ -97,6 +97,9 @@ def gen(rng, i, tier):
         c["A"] = [A.numerator, A.denominator]
     elif cls == "JobSequencing":
         c["lengths"] = [rng.randint(1, 3) for _ in range(rng.randint(1, 3))]
+        if rng.random() < 0.4:
+            # jobs with names (a dict of lengths): the same names turn up in other instances at other positions
+            c["jobs"] = rng.sample(["a", "b", "c", "d", "x", "y"], len(c["lengths"]))
         c["m"] = rng.choice([1, 2, 2, 3]) if len(c["lengths"]) <= 2 else rng.choice([1, 2])
         c["log"] = rng.random() < 0.6
         A = B * max(c["lengths"]) + rng.choice([F(1, 2), F(1), F(2)])
@@ -125,6 +128,8 @@ def instance(c):
     if cls == "BILP":
         return qp.BILP(c["c"], c["S"], c["b"])
     if cls == "JobSequencing":
+        if c.get("jobs"):
+            return qp.JobSequencing(dict(zip(c["jobs"], c["lengths"])), c["m"], log_trick=c["log"])
         return qp.JobSequencing(list(c["lengths"]), c["m"], log_trick=c["log"])
     return qp.AlternatingSectorsChain(c["N"], c["chain"], c["min"], c["max"])
 
@@ -377,6 +382,8 @@ def direct_cost(c, s):
         w = [F(1)] * len(c["V"]) if c["weights"] is None else [F(*x) for x in c["weights"]]
         return sum(w[i] for i in s)
     L = c["lengths"]
+    if c.get("jobs"):
+        s = [[c["jobs"].index(j) for j in cl] for cl in s]
     return max(sum(L[j] for j in cl) for cl in s)
 
 
